@@ -357,6 +357,17 @@ def _gen(ctx, emit):
                     every(name, b2a_hashed_base58(pfx + head + kp), [kind + "_prv", kind + "_pub", kind, "hierarchical_key", "call"])
                 for cut in (0, 1, 4, 5, 8, 9, 12, 13, 40, 41, 44):
                     every(name, b2a_hashed_base58((pfx + head + b"\0" + b32(5))[:cut + len(pfx)]), [kind + "_prv", kind, "call"])
+                # wrong total length with VALID key material still at the very end: bytes deleted or inserted right after the
+                # version bytes or inside the depth / fingerprint / child-number fields (a decoder that locates the key from
+                # the end, or accepts a blob with or without its 4 version bytes, takes these for keys)
+                full = head + (b"\0" + b32(5) if prv else b"\x02" + b32(x_ok))
+                ents = [kind + ("_prv" if prv else "_pub"), kind, "call"]
+                for drop in (1, 2, 3, 4, 5, 8):
+                    for at in (0, 1, 5):
+                        every(name, b2a_hashed_base58(pfx + full[:at] + full[at + drop:]), ents)
+                for add in (1, 2, 4):
+                    every(name, b2a_hashed_base58(pfx + b"\0" * add + full), ents)
+                    every(name, b2a_hashed_base58(pfx + pfx[:add] + full), ents)
     # bad checksums / non-alphabet characters / bare Base58
     for name in ("btc", "polis"):
         net = NETS[name]
